@@ -204,11 +204,13 @@ FILES = {
     "notice2.h": "@N @N\n", "errors2.c": "@E @E\n", "fatal_l.c": "@L\n", "fatal_p.h": "@E @F\n",
     # a byte that is not UTF-8: the text cannot even be read (fatal before the lexer starts)
     "fatal_r.c": "int a; /* \udce9 */\n",
+    # the tokenizer gives up on its own (its loop guard): another class of the repository's error family
+    "fatal_m.c": "@M\n",
     # a source and its header share the stem: nothing may be keyed by File.name
     "twin.c": "@E\n", "twin.h": "int a;\n",
 }
 CORE = ("clean.c", "notice.c", "error.h", "mixed.c")
-FATAL = ("fatal_l.c", "fatal_p.h", "fatal_r.c")
+FATAL = ("fatal_l.c", "fatal_p.h", "fatal_r.c", "fatal_m.c")
 
 
 def want_status(name: str) -> str:
@@ -324,7 +326,11 @@ def check(run, prog):
     # through a directory argument / the current directory
     o = runs.run(("src",), None, tree={"src": {k: v for k, v in FILES.items() if k not in FATAL}})
     o2 = runs.run((), None, tree={"src": {"clean.c": FILES["clean.c"], "notice.c": FILES["notice.c"]}, "x.c": FILES["clean.c"]})
-    for oo, files, wantfail in ((o, [k for k in FILES if k not in FATAL], True), (o2, ["clean.c", "notice.c", "x.c"], False)):
+    # ... and through several directory arguments (one verdict line per file, however many directories are named)
+    o3 = runs.run(("d1", "d2", "d3"), None, tree={"d1": {"clean.c": FILES["clean.c"]}, "d2": {"notice.c": FILES["notice.c"]},
+                                                   "d3": {"error.h": FILES["error.h"]}})
+    for oo, files, wantfail in ((o, [k for k in FILES if k not in FATAL], True), (o2, ["clean.c", "notice.c", "x.c"], False),
+                                (o3, ["clean.c", "notice.c", "error.h"], True)):
         if oo.crash is not None:
             value = value or ((), oo.crash)
         if sorted(posixpath.basename(p) for p in completed(oo)) != sorted(files) or sorted(n for n, _ in reported(oo, None)[0]) != sorted(files):
